@@ -28,14 +28,14 @@ type DrvHand struct {
 }
 
 type scriptDriver struct {
-	w       *World
-	actor   string
-	sc      *EngineScript
-	Sends   []*DrvSend
-	Handed  []DrvHand
-	handed  []bool
-	RecvN   int
-	Timeouts int
+	w          *World
+	actor      string
+	sc         *EngineScript
+	Sends      []*DrvSend
+	Handed     []DrvHand
+	handed     []bool
+	RecvN      int
+	Timeouts   int
 	Retryables int
 }
 
